@@ -21,7 +21,11 @@ def sh(cmd, **kw):
 
 
 def main():
-    sel = sys.argv[1:]
+    global MUTANTS
+    sel = [a for a in sys.argv[1:] if not a.startswith("--")]
+    if "--benign" in sys.argv:
+        from benign import BENIGN
+        MUTANTS = BENIGN
     dirty = sh("git -C %s status --porcelain" % REPO).stdout.strip()
     if dirty:
         print("refusing: /repo has uncommitted changes:\n" + dirty)
@@ -33,7 +37,7 @@ def main():
         path = os.path.join(REPO, m["file"])
         src = open(path).read()
         cnt = src.count(m["old"])
-        if cnt < 1 or (m.get("nth") is None and cnt != 1):
+        if cnt < 1 or (m.get("nth") is None and cnt != 1 and not m.get("replace_all")):
             print("MUTANT %-40s SKIPPED: anchor text found %d times" % (m["name"], cnt))
             results.append((m["name"], "anchor-missing"))
             continue
@@ -47,7 +51,7 @@ def main():
         try:
             open(path, "w").write(new_src)
             outcome = {}
-            for prop in m["expect"]:
+            for prop in m.get("expect", []):
                 r = sh("./vcheck %s --tier %s" % (prop, m.get("tier", "quick")), cwd=VERIF)
                 fired = ("VIOLATION property=%s" % prop) in r.stdout
                 build_fail = "fact generation failed" in r.stdout
@@ -57,7 +61,10 @@ def main():
             for prop in m.get("silent", []):
                 r = sh("./vcheck %s --tier quick" % prop, cwd=VERIF)
                 fired = ("VIOLATION property=%s" % prop) in r.stdout
-                outcome[prop + "(must be silent)"] = "FALSE-ALARM" if fired else "silent"
+                build_fail = "fact generation failed" in r.stdout
+                outcome[prop + "(must be silent)"] = "BUILD-FAIL" if build_fail else ("FALSE-ALARM" if fired else "silent")
+                if fired and not build_fail:
+                    print("\n".join(l for l in r.stdout.splitlines() if l.strip().startswith(("REFUTED", "ANCHOR", "FLOOR", "UNREVIEWED", "CANNOT", "ENGINE", "expected", "found")))[:1500])
         finally:
             sh("git -C %s checkout -- ." % REPO)
         ok = all(v in ("fired", "silent") for v in outcome.values())
